@@ -9,6 +9,7 @@ package ofbase
 
 import (
 	vr "github.com/contiv/libOpenflow/verifrt"
+	"sync"
 )
 
 func VerifST_Shifts() {
@@ -58,9 +59,9 @@ func VerifST_DivRem() {
 func VerifST_AppendAliasing() {
 	s := make([]byte, 2, 4)
 	s[0], s[1] = vr.U8("a"), vr.U8("b")
-	t := append(s, vr.U8("c"))   // within capacity: shares the array
-	u := append(s, vr.U8("d"))   // overwrites t[2]
-	v := append(t, 1, 2, 3)      // beyond capacity: new array
+	t := append(s, vr.U8("c")) // within capacity: shares the array
+	u := append(s, vr.U8("d")) // overwrites t[2]
+	v := append(t, 1, 2, 3)    // beyond capacity: new array
 	v[0] = 0xee
 	vr.Observe("t", t)
 	vr.Observe("u", u)
@@ -153,4 +154,19 @@ func VerifST_StructsArrays() {
 	vr.Observe("x", x)
 	vr.Observe("y", y)
 	vr.Assert(y.a[0] == x.a[0]+1 && y.n == x.n^0xffff, "struct-copy-is-by-value")
+}
+
+var stPool = sync.Pool{New: func() interface{} { return new([2]uint8) }}
+
+// the sync.Pool contract model: whatever Get hands out (an item put earlier, or a new one), a
+// caller that initialises what it got sees its own values
+func VerifST_SyncPool() {
+	a := stPool.Get().(*[2]uint8)
+	a[0], a[1] = vr.U8("x"), 1
+	stPool.Put(a)
+	b := stPool.Get().(*[2]uint8)
+	vr.Observe("reused", b == a)
+	b[0] = 7
+	vr.Assert(b[0] == 7 && (b[1] == 1) == (b == a), "pool-item-is-the-put-one-or-new")
+	stPool.Put(b)
 }
